@@ -37,6 +37,7 @@ func init() {
 				{kind: "func", file: mathGo, name: "GetLiquidityFromAmounts", lean: "GetLiquidityFromAmounts"},
 				{kind: "func", file: mathGo, name: "SquareRoundUp", lean: "SquareRoundUp"},
 				{kind: "func", file: mathGo, name: "SquareTruncate", lean: "SquareTruncate"},
+				{kind: "func", file: "x/liquiditypool/types/pool.go", recv: "Pool", name: "IsCurrentTickInRange", lean: "IsCurrentTickInRange", fields: []field{{"p.CurrentTick", tInt}}},
 				{kind: "func", file: helperGo, name: "getFeeRateOverOneMinusFeeRate", lean: "getFeeRateOverOneMinusFeeRate"},
 				{kind: "func", file: helperGo, name: "computeFeeChargeFromInAmount", lean: "computeFeeChargeFromInAmount"},
 				{kind: "func", file: helperGo, name: "computeFeeChargePerSwapStepOutGivenIn", lean: "computeFeeChargePerSwapStepOutGivenIn"},
